@@ -425,12 +425,25 @@ macro_rules! global_entry_sink {
         #[derive(Debug, Clone)]
         pub struct $name;
 
+        // (the verification-only cfg below is unknown to crates expanding this macro)
+        #[allow(unexpected_cfgs)]
         const _: () = {
+            #[cfg(not(metrique_verif_loom))]
             use ::std::{sync::RwLock, boxed::Box, option::Option::{self, Some, None}, result::Result, any::Any, marker::{Send, Sync}};
+            // verification builds only (`--cfg metrique_verif_loom`): a scheduler-visible lock
+            #[cfg(metrique_verif_loom)]
+            use ::std::{boxed::Box, option::Option::{self, Some, None}, result::Result, any::Any, marker::{Send, Sync}};
+            #[cfg(metrique_verif_loom)]
+            use $crate::__verif::sync::RwLock;
             use $crate::{Entry, BoxEntry, BoxEntrySink, EntrySink, global::{AttachGlobalEntrySink, AttachHandle}};
 
             const NAME: &'static str = ::std::stringify!($name);
+            #[cfg(not(metrique_verif_loom))]
             static SINK: RwLock<Option<(BoxEntrySink, Box<dyn Send + Sync + 'static>)>> = RwLock::new(None);
+            #[cfg(metrique_verif_loom)]
+            $crate::__verif::loom::lazy_static! {
+                static ref SINK: RwLock<Option<(BoxEntrySink, Box<dyn Send + Sync + 'static>)>> = RwLock::new(None);
+            }
 
             $crate::__test_util! {
                 use ::std::cell::RefCell;
